@@ -230,7 +230,7 @@ def BracketSymbol.text : BracketSymbol → Str
   | .element e => e.text
   | .aromatic a => a.text
 
-/-- `src/feature/configuration.rs`: 58 configurations in declaration order. -/
+/-- `src/feature/configuration.rs`: 57 configurations in declaration order. -/
 inductive Configuration
   | AL1 | AL2 | OH1 | OH2 | OH3 | OH4 | OH5 | OH6 | OH7 | OH8
   | OH9 | OH10 | OH11 | OH12 | OH13 | OH14 | OH15 | OH16 | OH17 | OH18
